@@ -20,11 +20,30 @@ class Injected(Exception):
     """Raised by a harness element at a chosen value (fault injection)."""
 
 
+class InjectedBase(BaseException):
+    """An injected failure that is NOT an Exception (like KeyboardInterrupt, SystemExit, GeneratorExit)."""
+
+
+# what a harness element raises: "any element raises" covers every exception class
+EXC_KINDS = ("exc", "base", "kbd", "exit")
+_EXC_CLASS = {"exc": Injected, "base": InjectedBase, "kbd": KeyboardInterrupt, "exit": SystemExit}
+
+
+def make_exc(kind, site):
+    """The exception a harness element raises at `site`; marked, so that the consumer recognises it."""
+    e = _EXC_CLASS[kind](site)
+    e.lenaverif_site = site
+    return e
+
+
 class Unpicklable(object):
     """A flow value that cannot be cached: pickling it raises (inside Cache, while it dumps)."""
 
+    def __init__(self, kind="exc"):
+        self.kind = kind
+
     def __reduce__(self):
-        raise Injected("pkl")
+        raise make_exc(self.kind, "pkl")
 
 
 class Src(object):
@@ -37,6 +56,7 @@ class Src(object):
         self.crash = None
         self.bad = None
         self.style = style
+        self.exc = "exc"       # kind of the exception raised at `crash` / by the unpicklable value
 
     def __call__(self):
         avals, crash, bad, style = list(self.avals), self.crash, self.bad, self.style
@@ -45,10 +65,10 @@ class Src(object):
         shared_ctx, shared_list = {}, []
         for i, a in enumerate(avals, 1):
             if crash == i:
-                raise Injected("src")
+                raise make_exc(self.exc, "src")
             self.pulled += 1
             if bad == i:
-                yield Unpicklable()
+                yield Unpicklable(self.exc)
             elif style == "alias_ctx":
                 shared_ctx["cur"] = a
                 shared_ctx.setdefault("seen", []).append(a)
@@ -67,16 +87,17 @@ class Tap(object):
         self.name = name
         self.work = 0
         self.crash = None
+        self.exc = "exc"
 
     def run(self, flow):
         for x in flow:
             self.work += 1
             if self.crash == self.work:
-                raise Injected(self.name)
+                raise make_exc(self.exc, self.name)
             yield (self.name, x)
 
 
-STYLES = ("int", "pair", "str", "nested", "ctxonly", "alias_ctx", "alias_list", "falsy")
+STYLES = ("int", "pair", "str", "nested", "ctxonly", "alias_ctx", "alias_list", "falsy", "shared")
 # values that look like "nothing": a cache must store and replay them like any other value
 FALSY = (None, 0, "", {}, [], False, 0.0, (), b"", frozenset())
 ALIAS_STYLES = ("alias_ctx", "alias_list")
@@ -93,6 +114,13 @@ def enc(a, style):
         return (a, {"cur": a, "seen": list(range(first, a + 1))})
     if style == "alias_list":
         return list(range(first, a + 1))
+    if style == "shared":
+        # internal sharing that differs per value: ONE new str object under two keys and in two places of
+        # the data, one tuple object twice (pickle protocols >= 4 store the second occurrence as a
+        # back-reference into the memo of that value)
+        s = "name-%d" % a
+        t = (a, s)
+        return ([s, s, t], {"k1": s, "k2": s, "pair": t, "again": t})
     if style == "int":
         return a
     if style == "pair":
